@@ -105,11 +105,14 @@ func EditCorpus() []EditPair {
 		return &Bundle{Files: []*File{file(foo, "a", object("Foo", append(ps, extra...)...),
 			&Element{Kind: "enum", N: &Nested{Kind: "enum", Name: "Status", Enum: &Enum{Name: "Status", Opts: []string{"ACTIVE"}}}})}}
 	}
-	plain := mk(prop("age", &Field{Kind: "scalar", Scalar: &Scalar{Kind: "integer", Fmt: "INT32"}}))
+	age := prop("age", &Field{Kind: "scalar", Scalar: &Scalar{Kind: "integer", Fmt: "INT32"}})
+	plain := mk(age)
 	plain.Files[0].Elements[1].N.Enum.Opts = []string{"ACTIVE", "INACTIVE"}
+	fooP := prop("foo", obj())
 	return []EditPair{
-		{mk(), plain, "foo.v1", []EditRec{{"field", "foo/v1/a.j5s:Foo", "age scalar"}, {"option", "foo/v1/a.j5s:Status", "INACTIVE"}}},
+		{mk(), plain, "foo.v1", []EditRec{{"field", "foo/v1/a.j5s:Foo", "age scalar", "EAppendField 0 0 " + age.Coq()},
+			{"option", "foo/v1/a.j5s:Status", "INACTIVE", "EAppendOption 0 1 " + S("INACTIVE")}}},
 		// defect: the appended inline type Foo.Foo captures the relative name Foo.X of the existing field
-		{mk(), mk(prop("foo", obj())), "foo.v1", []EditRec{{"field", "foo/v1/a.j5s:Foo", "foo objinline"}}},
+		{mk(), mk(fooP), "foo.v1", []EditRec{{"field", "foo/v1/a.j5s:Foo", "foo objinline", "EAppendIn 0 0 AtDecl [] (AField " + fooP.Coq() + ")"}}},
 	}
 }
